@@ -40,12 +40,20 @@ func (g *GenesisState) Validate() error {
 		return core.ErrNilPointer.Wrap("forwarder genesis state")
 	}
 
+	// NOTE: a repeated ID passes the ID validation but cannot be initialized,
+	// setting an already paused protocol or cross-chain ID is an error.
+	seenProtocols := make(map[core.ProtocolID]struct{}, len(g.PausedProtocolIds))
 	for _, id := range g.PausedProtocolIds {
 		if err := id.Validate(); err != nil {
 			return errorsmod.Wrap(err, "invalid paused protocol ID")
 		}
+		if _, found := seenProtocols[id]; found {
+			return core.ErrAlreadySet.Wrapf("repeated paused protocol ID %s", id.String())
+		}
+		seenProtocols[id] = struct{}{}
 	}
 
+	seenCrossChains := make(map[core.CrossChainID]struct{}, len(g.PausedCrossChainIds))
 	for _, id := range g.PausedCrossChainIds {
 		if id == nil {
 			return core.ErrNilPointer.Wrap("invalid paused cross-chain ID")
@@ -54,6 +62,10 @@ func (g *GenesisState) Validate() error {
 		if err := id.Validate(); err != nil {
 			return errorsmod.Wrapf(err, "invalid paused cross-chain ID %v", id)
 		}
+		if _, found := seenCrossChains[*id]; found {
+			return core.ErrAlreadySet.Wrapf("repeated paused cross-chain ID %s", id.String())
+		}
+		seenCrossChains[*id] = struct{}{}
 	}
 
 	return nil
